@@ -16,7 +16,7 @@ requests and replies
   name <kind> <hexname>                    -> res=ok:<entry> | res=unknown | res=notexact                    must=<0|1>
   pre <flt 0|1> <caps> <fs names> <st names> <det names>
                                            -> res=ok|missing:<hex>|invalid:<sorted names>|badname fs=<sorted names> st=<sorted names> must=<0|1>
-  prer <shape n|r|v|rv> <flt> <caps> <fs names> <st names> <det names>   (scan roots: none | real dir | virtual FS | both)
+  prer <shape n|r|v|rv [p]> <flt> <caps> <fs names> <st names> <det names>   (scan roots: none | real dir | virtual FS | both)
                                            -> same reply as pre, plus scan=<ok|prefail|noroot|other> of a real Scan over those roots
   pref <caps> <detector req> <required names>   (one hand-made detector, nothing else enabled)
                                            -> same reply as pre, must=0
@@ -146,6 +146,9 @@ def handle (line : String) : String :=
   -- of requirement validation is a function of (capabilities, plugin requirements) only; the scan-root shape plays no part —
   -- except that, validation passed, a scan without any root stops with "no scan root specified"
   | ["prer", shape, flt, c, fsn, stn, dn] =>
+    -- a trailing p: PathsToExtract is set; Scan refuses specific files with more than one scan root (after the two checks above)
+    let paths := shape.endsWith "p" && shape ≠ "p"
+    let shape := if paths then String.ofList (shape.toList.dropLast) else shape
     if shape ≠ "n" ∧ shape ≠ "r" ∧ shape ≠ "v" ∧ shape ≠ "rv" then "bad-op" else
     match boolOf? flt, capsOf? c, namesOf? fsn, namesOf? stn, namesOf? dn with
     | some flt, some c, some fsn, some stn, some dn =>
@@ -153,7 +156,7 @@ def handle (line : String) : String :=
       | .ok fs, .ok st, .ok dets =>
         let f := fun (ps : List Plugin) => if flt then filterByCapabilities ps c else ps
         let must := boolStr flt
-        let after := if shape = "n" then "noroot" else "ok"
+        let after := if shape = "n" then "noroot" else if paths && shape = "rv" then "severalroots" else "ok"
         match precheck fsNames stNames (f fs) (f st) (f dets) c with
         | .ok fs' st' => s!"res=ok fs={namesStr fs'} st={namesStr st'} scan={after} must={must}"
         | .missing e => s!"res=missing:{hexE e} fs=- st=- scan=prefail must={must}"
